@@ -36,7 +36,24 @@ func VerifHarness_C06_glob() {
 	rt.Assert(found, "the recovery file stored beside the index is found whatever the base name")
 }
 
+// The same search in a directory with many entries (exactly 255, 256, 257,
+// 512 — where a batched listing would end on a full batch).
+func VerifHarness_C06_glob_many() {
+	const dir = "/tmp/zzverif/gm"
+	total := []int{255, 256, 257, 512}[rt.Choice("entries", 4)]
+	names := []string{"s.par2", "s.vol0+1.par2", "s.vol1+1.par2"}
+	for i := 0; len(names) < total; i++ {
+		names = append(names, "x"+string(rune('0'+i/100))+string(rune('0'+i/10%10))+string(rune('0'+i%10)))
+	}
+	rt.SetDir(dir, names)
+	got, err := defaultFileIO{}.FindWithPrefixAndSuffix(dir+"/s.", ".par2")
+	rt.Assert(err == nil, "directory search succeeds")
+	// "s.par2" itself is not <prefix><something><suffix>: exactly the two recovery files
+	rt.Assert(len(got) == 2 && got[0] == dir+"/s.vol0+1.par2" && got[1] == dir+"/s.vol1+1.par2", "both recovery files are found, nothing else")
+}
+
 func init() {
+	rt.Register("C06_glob_many", VerifHarness_C06_glob_many)
 	rt.Register("C06_glob", VerifHarness_C06_glob)
 	rt.Register("C06_basename", VerifHarness_C06_basename)
 	rt.Register("C06_layouts", VerifHarness_C06_layouts)
@@ -245,7 +262,8 @@ func VerifHarness_C06_volume_names() {
 		{"s.a.par2", "s.b.par2"},
 		{"s.with space.par2", "s.x.y.par2"},
 		{"s.vol0+1.par2", "s.vol1+1.par2", "s.extra.par2"},
-	}[rt.Choice("names", 4)]
+		{"s.vol127+128.par2", "s.vol1000+1.par2"},
+	}[rt.Choice("names", 5)]
 	s := c06Scenario(files, []int{0, 1, 2}, names, false)
 	if rt.Bool("copy") {
 		// the same recovery block (exponent 0) once more in a differently named file,
